@@ -4,7 +4,9 @@ package rux
 // ghost counters, request construction, traced handlers.
 
 import (
+	"bufio"
 	"io"
+	"net"
 	"net/http"
 	"net/url"
 )
@@ -19,6 +21,7 @@ type verifWriter struct {
 	flushes   int
 	shortWr   bool // Write accepts a symbolic number of bytes and may fail
 	failNext  bool
+	hijacks     int
 	strictCodes bool // WriteHeader panics for codes outside 100..999, like net/http's
 }
 
@@ -77,6 +80,13 @@ func (w *verifWriter) ReadFrom(src io.Reader) (int64, error) {
 			return total, nil
 		}
 	}
+}
+
+// Hijack makes the recording writer an http.Hijacker (a connection upgrade takes the
+// connection away; nothing is known about it here).
+func (w *verifWriter) Hijack() (net.Conn, *bufio.ReadWriter, error) {
+	w.hijacks++
+	return nil, nil, nil
 }
 
 // verifPlainReader is a source without WriteTo, so that io.Copy looks at the destination.
